@@ -14,6 +14,12 @@ From SeataV Require Import Fence.FenceModel Fence.FenceRace Fence.FenceProofs Fe
 Import ListNotations.
 Open Scope N_scope.
 
+(* the decision tables of the handler, the compare-and-set's old status, the phase dispatch and the
+   shape of WithFence were all recognised by the translator in the CURRENT source (coq/Gen/FenceRules.v,
+   regenerated on every run): every theorem below is about those tables *)
+Theorem C06_tables_recognised : tables_recognised = true.
+Proof. exact tables_recognised_ok. Qed.
+
 Theorem C06_at_most_once : forall h k,
   let c := get (run_hist [] h) k in
   try_of c <= 1 /\ confirm_of c <= 1 /\ cancel_of c <= 1.
